@@ -1130,16 +1130,22 @@ def parse_almost_lift(body, params):
 
 
 def parse_distance(body, params):
-    """[Expects(sizes equal);] return std::inner_product(a.begin(), a.end(), b.begin(), INIT, std::plus<>(),
-                                                           [](T a, T b) { return E; });"""
+    """[Expects(sizes equal);] return std::inner_product | std::transform_reduce
+                                 (a.begin(), a.end(), b.begin(), INIT, std::plus<>(), [](T a, T b) { return E; });
+    the algorithm is part of the description: it fixes the order of a floating-point accumulation"""
     p = P(tokenize(body), params, "fitness")
     x = X(p.t)
     eqs = parse_expects_eq(x, params)
     p.i = x.i
     p.eat("return")
-    if p.eat() != "std::inner_product":
-        raise Unparsed("not std::inner_product")
+    algs = {"std::inner_product": "ALeftFold", "std::transform_reduce": "AUnspecifiedOrder"}
+    alg = p.eat()
+    if alg not in algs:
+        raise Unparsed("reduction algorithm %r" % alg)
     p.eat("(")
+    if alg == "std::transform_reduce" and p.peek() in ("std::execution::seq", "std::execution::par",
+                                                       "std::execution::par_unseq", "std::execution::unseq"):
+        p.eat(); p.eat(",")
     a = p.iterator("begin"); p.eat(",")
     a2 = p.iterator("end"); p.eat(",")
     b = p.iterator("begin"); p.eat(",")
@@ -1167,7 +1173,7 @@ def parse_distance(body, params):
     e = x.xexpr()
     x.eat(";"); x.eat("}"); x.eat(")"); x.eat(";")
     x.done()
-    return eqs, f64_bits(float(init)), accs[acc], e
+    return algs[alg], eqs, f64_bits(float(init)), accs[acc], e
 
 
 def parse_combine(body, params):
@@ -1292,8 +1298,8 @@ def generate_arith(tcc, util):
 
     def f_dist():
         params, _, body = find_function2(tcc, r"double\s+distance\s*(?=\()")
-        eqs, init, acc, e = parse_distance(body, params)
-        return "VInner %s %d %s (%s)" % ("true" if eqs else "false", init, acc, e)
+        alg, eqs, init, acc, e = parse_distance(body, params)
+        return "VInner %s %s %d %s (%s)" % (alg, "true" if eqs else "false", init, acc, e)
     attempt("distance_def", f_dist)
 
     def f_comb():
